@@ -741,6 +741,7 @@ def special_obligation(job, concrete=None):
         da, db = ClockDomain("a", reset_less=True), ClockDomain("b", reset_less=True, clk_edge=job.get("edge", "pos"))
         top.domains += [da, db]
         x, y, z = Signal(3, name="x", init=5), Signal(3, name="y", init=1), Signal(2, name="z", init=2)
+        u = Signal(4, name="u", init=0xA, reset_less=True)      # reset-less and split between the two domains: no inserted reset touches it
         din = Signal(3, name="din")
         ra, rb, ea, eb = (Signal(1, name=n) for n in ("ra", "rb", "ea", "eb"))
 
@@ -749,6 +750,8 @@ def special_obligation(job, concrete=None):
                 m = Module()
                 m.d.a += x.eq(x + din)
                 m.d.b += y.eq(y ^ din)
+                m.d.a += u[0:2].eq(u[0:2] + 1)
+                m.d.b += u[2:4].eq(u[2:4] + din[0:2])
                 sub = Module()
                 sub.d.b += z.eq(z + 1)
                 m.submodules.sub = sub
@@ -770,13 +773,19 @@ def special_obligation(job, concrete=None):
                     return sym_ite(e[rsig] != 0, init, sym_ite(e[esig] != 0, step(v, e), v))
                 return sym_ite(e[esig] != 0, sym_ite(e[rsig] != 0, init, step(v, e)), v)
             return fn
+        def ctl_rl(step, esig):
+            def fn(v, e):
+                return sym_ite(e[esig] != 0, step(v, e), v) if "E" in order else step(v, e)
+            return fn
         from vlib.pysym import sym_ite
         names_ = {"R": "ResetInserter({a: ra, b: rb})", "E": "EnableInserter({a: ea, b: eb})"}
-        text = "(".join(names_[c_] for c_ in order) + "(D" + ")" * len(order) + f"; D: x += din in a, y ^= din in b, child z += 1 in b ({job.get('edge', 'pos')}edge)"
+        text = "(".join(names_[c_] for c_ in order) + "(D" + ")" * len(order) + f"; D: x += din in a, y ^= din in b, child z += 1 in b ({job.get('edge', 'pos')}edge), reset-less u: u[0:2] += 1 in a, u[2:4] += din in b"
         toggles = [da.clk, db.clk]
         aliases = []
         regs = [(x, da, ctl(lambda v, e: (v + e["din"]) & 7, "ra", "ea", 5), 7), (y, db, ctl(lambda v, e: (v ^ e["din"]) & 7, "rb", "eb", 1), 7),
-                (z, db, ctl(lambda v, e: (v + 1) & 3, "rb", "eb", 2), 3)]
+                (z, db, ctl(lambda v, e: (v + 1) & 3, "rb", "eb", 2), 3),
+                (u, da, ctl_rl(lambda v, e: (v & 0xC) | (((v & 3) + 1) & 3), "ea"), 0x3),
+                (u, db, ctl_rl(lambda v, e: (v & 0x3) | (((((v >> 2) & 3) + (e["din"] & 3)) & 3) << 2), "eb"), 0xC)]
         ins = {"din": din, "ra": ra, "rb": rb, "ea": ea, "eb": eb}
     else:
         mapping = job["map"]
